@@ -482,26 +482,54 @@ theorem observe_inv {cfg : Cfg} {now serial : Nat} {b : BState} {c k due : Nat} 
 
 /-! ## the event log and the ghost history agree -/
 
-def isCallOf (c : Nat) : Ev → Option Nat
-  | .innerCall c' k => if c' = c then some k else none
+def isCallOf (c : Nat) : Line → Option Nat
+  | (_, .innerCall c' k) => if c' = c then some k else none
   | _ => none
 
 /-- the serials of the `inner_call` events of request `c` in a trace, in order -/
-def callsOf (c : Nat) (l : List Ev) : List Nat := l.filterMap (isCallOf c)
+def callsOf (c : Nat) (l : List Line) : List Nat := l.filterMap (isCallOf c)
 
 /-- the serials of the attempts of a request according to its ghost history, oldest first -/
 def serials (cl : Caller) : List Nat := (cl.atts.map (·.k)).reverse
 
-def resultOf (c : Nat) : Ev → Option Res
-  | .result c' r => if c' = c then some r else none
+def resultOf (c : Nat) : Line → Option Res
+  | (_, .result c' r) => if c' = c then some r else none
   | _ => none
 
 /-- the results delivered to request `c` in a trace -/
-def resultsOf (c : Nat) (l : List Ev) : List Res := l.filterMap (resultOf c)
+def resultsOf (c : Nat) (l : List Line) : List Res := l.filterMap (resultOf c)
 
-@[simp] theorem callsOf_append (c : Nat) (a b : List Ev) : callsOf c (a ++ b) = callsOf c a ++ callsOf c b := by
+/-- the budget's answers are neither inner calls nor results -/
+@[simp] theorem filterMap_isCallOf_withdraw (c now c' : Nat) (gs : List Bool) :
+    List.filterMap (isCallOf c) (gs.map fun g => ((now, REv.withdraw c' g) : Line)) = [] := by
+  induction gs with
+  | nil => rfl
+  | cons g tl ih => simp [List.filterMap_cons, isCallOf, ih]
+@[simp] theorem filterMap_resultOf_withdraw (c now c' : Nat) (gs : List Bool) :
+    List.filterMap (resultOf c) (gs.map fun g => ((now, REv.withdraw c' g) : Line)) = [] := by
+  induction gs with
+  | nil => rfl
+  | cons g tl ih => simp [List.filterMap_cons, resultOf, ih]
+@[simp] theorem callsOf_withdraw (c now c' : Nat) (gs : List Bool) :
+    callsOf c (gs.map fun g => ((now, REv.withdraw c' g) : Line)) = [] := filterMap_isCallOf_withdraw c now c' gs
+@[simp] theorem resultsOf_withdraw (c now c' : Nat) (gs : List Bool) :
+    resultsOf c (gs.map fun g => ((now, REv.withdraw c' g) : Line)) = [] := filterMap_resultOf_withdraw c now c' gs
+
+theorem callsOf_cons (c : Nat) (x : Line) (l : List Line) : callsOf c (x :: l) = (isCallOf c x).toList ++ callsOf c l := by
+  simp only [callsOf, List.filterMap_cons]; cases isCallOf c x <;> simp
+theorem resultsOf_cons (c : Nat) (x : Line) (l : List Line) : resultsOf c (x :: l) = (resultOf c x).toList ++ resultsOf c l := by
+  simp only [resultsOf, List.filterMap_cons]; cases resultOf c x <;> simp
+
+@[simp] theorem callsOf_ite_raw (c now : Nat) (p : Prop) [Decidable p] (m : String) :
+    callsOf c (if p then [] else [((now, REv.raw m) : Line)]) = [] := by
+  split <;> simp [callsOf, isCallOf]
+@[simp] theorem resultsOf_ite_raw (c now : Nat) (p : Prop) [Decidable p] (m : String) :
+    resultsOf c (if p then [] else [((now, REv.raw m) : Line)]) = [] := by
+  split <;> simp [resultsOf, resultOf]
+
+@[simp] theorem callsOf_append (c : Nat) (a b : List Line) : callsOf c (a ++ b) = callsOf c a ++ callsOf c b := by
   simp [callsOf, List.filterMap_append]
-@[simp] theorem resultsOf_append (c : Nat) (a b : List Ev) : resultsOf c (a ++ b) = resultsOf c a ++ resultsOf c b := by
+@[simp] theorem resultsOf_append (c : Nat) (a b : List Line) : resultsOf c (a ++ b) = resultsOf c a ++ resultsOf c b := by
   simp [resultsOf, List.filterMap_append]
 @[simp] theorem callsOf_nil (c : Nat) : callsOf c [] = [] := rfl
 @[simp] theorem resultsOf_nil (c : Nat) : resultsOf c [] = [] := rfl
@@ -541,11 +569,11 @@ theorem tickC_trans {cfg : Cfg} {now serial : Nat} {b : BState} {c : Nat} {cl : 
       simp at ht; subst ht
       have hr := result_none_of_not_done h (by simp [hp]) (by simp [hp])
       refine ⟨observe_inv h hp hc.1 hc.2, ?_, ?_, ?_, ?_⟩
-      · simp only [observe]; split <;> simp [callsOf, isCallOf, serials, map_k_seenNow]
-      · simp only [observe]; split <;> simp [resultsOf, resultOf, hr, List.filterMap_cons]
+      · simp only [observe]; split <;> simp [callsOf_cons, isCallOf, serials, map_k_seenNow]
+      · simp only [observe]; split <;> simp [resultsOf_cons, resultOf, hr]
       · intro c' hne
         have : ¬ c = c' := fun e => hne e.symm
-        simp only [observe]; split <;> simp [callsOf, isCallOf, resultsOf, resultOf, this]
+        simp only [observe]; split <;> simp [callsOf_cons, isCallOf, resultsOf_cons, resultOf, this]
       · simp only [observe]; split <;> simp
     · simp at ht
   · -- sleeping
@@ -628,9 +656,10 @@ theorem drop_inv {cfg : Cfg} {cl : Caller} (h : CInv cfg cl) (hp : cl.phase ≠ 
   · simp [PhaseInv]
 
 /-- events that are neither an inner call nor a result leave the per-request counts alone -/
-theorem sinv_emit_neutral {cfg : Cfg} {s : State} {evs : List Ev} (h : SInv cfg s)
+theorem sinv_emit_neutral {cfg : Cfg} {s : State} {evs : List REv} (h : SInv cfg s)
     (b : BState) (d o : Nat)
-    (h1 : ∀ c, callsOf c evs = []) (h2 : ∀ c, resultsOf c evs = []) :
+    (h1 : ∀ c t, callsOf c (evs.map fun e => ((t, e) : Line)) = [])
+    (h2 : ∀ c t, resultsOf c (evs.map fun e => ((t, e) : Line)) = []) :
     SInv cfg (emit { s with b := b, deposits := d, others := o } evs) := by
   refine ⟨h.all, ?_, ?_⟩
   · intro c; have := h.calls c; simp [emit, nCalls, h1] at *; exact this
@@ -698,8 +727,9 @@ theorem sinv_poll {cfg : Cfg} {s : State} (h : SInv cfg s) (c : Nat) (ds : List 
         exact this
 
 theorem sinv_modify_dropped {cfg : Cfg} {s : State} (h : SInv cfg s) {c : Nat} {cl : Caller}
-    (hl : lookup s.callers c = some cl) (hp : cl.phase ≠ .done) (hpu : cl.phase ≠ .unready) (evs : List Ev)
-    (h1 : ∀ c, callsOf c evs = []) (h2 : ∀ c, resultsOf c evs = []) :
+    (hl : lookup s.callers c = some cl) (hp : cl.phase ≠ .done) (hpu : cl.phase ≠ .unready) (evs : List REv)
+    (h1 : ∀ c t, callsOf c (evs.map fun e => ((t, e) : Line)) = [])
+    (h2 : ∀ c t, resultsOf c (evs.map fun e => ((t, e) : Line)) = []) :
     SInv cfg (emit { s with callers := modify s.callers c { cl with phase := .dropped } } evs) := by
   have hc := h.all _ (mem_of_lookup hl)
   refine ⟨?_, ?_, ?_⟩
@@ -730,19 +760,19 @@ theorem sinv_drop {cfg : Cfg} {s : State} (h : SInv cfg s) (c : Nat) : SInv cfg 
     · exact h
     · exact h
     · rename_i k due o hp
-      exact sinv_modify_dropped h hl (by simp [hp]) (by simp [hp]) _ (by intro c; simp [callsOf, isCallOf])
-        (by intro c; simp [resultsOf, resultOf])
+      exact sinv_modify_dropped h hl (by simp [hp]) (by simp [hp]) _ (by intro c t; simp [callsOf, isCallOf])
+        (by intro c t; simp [resultsOf, resultOf])
     · rename_i hnd hnu _ _
       have := sinv_modify_dropped h hl (fun e => hnd e) (fun e => hnu e) [] (by simp) (by simp)
       rwa [emit_nil] at this
 
 theorem sinv_step {cfg : Cfg} {s : State} (h : SInv cfg s) (op : Op) : SInv cfg (stepS cfg s op) := by
-  have neutral : ∀ (b : BState) (d o : Nat) (e : Ev), isCallOf 0 e = none → resultOf 0 e = none →
-      (∀ c, isCallOf c e = isCallOf 0 e) → (∀ c, resultOf c e = resultOf 0 e) →
+  have neutral : ∀ (b : BState) (d o : Nat) (e : REv), (∀ c t, isCallOf c (t, e) = none) →
+      (∀ c t, resultOf c (t, e) = none) →
       SInv cfg (emit { s with b := b, deposits := d, others := o } [e]) := by
-    intro b d o e h1 h2 h3 h4
-    exact sinv_emit_neutral h b d o (by intro c; simp [callsOf, h3, h1])
-      (by intro c; simp [resultsOf, h4, h2])
+    intro b d o e h1 h2
+    exact sinv_emit_neutral h b d o (by intro c t; simp [callsOf, h1])
+      (by intro c t; simp [resultsOf, h2])
   cases op with
   | adv ms => exact ⟨h.all, h.calls, h.results⟩
   | arrive c ma plan => exact sinv_arrive h c ma plan
@@ -751,20 +781,20 @@ theorem sinv_step {cfg : Cfg} {s : State} (h : SInv cfg s) (op : Op) : SInv cfg 
   | probeBalance =>
     simp only [stepS]
     split
-    · exact neutral s.b s.deposits s.others _ rfl rfl (fun _ => rfl) (fun _ => rfl)
-    · exact neutral s.b s.deposits s.others _ rfl rfl (fun _ => rfl) (fun _ => rfl)
-  | probeLimit => exact neutral s.b s.deposits s.others _ rfl rfl (fun _ => rfl) (fun _ => rfl)
+    · exact neutral s.b s.deposits s.others _ (fun _ _ => rfl) (fun _ _ => rfl)
+    · exact neutral s.b s.deposits s.others _ (fun _ _ => rfl) (fun _ _ => rfl)
+  | probeLimit => exact neutral s.b s.deposits s.others _ (fun _ _ => rfl) (fun _ _ => rfl)
   | deposit =>
     simp only [stepS]
     split
-    · exact neutral _ _ s.others _ rfl rfl (fun _ => rfl) (fun _ => rfl)
-    · exact neutral s.b s.deposits s.others _ rfl rfl (fun _ => rfl) (fun _ => rfl)
+    · exact neutral _ _ s.others _ (fun _ _ => rfl) (fun _ _ => rfl)
+    · exact neutral s.b s.deposits s.others _ (fun _ _ => rfl) (fun _ _ => rfl)
   | withdraw =>
     simp only [stepS]
     split
-    · exact neutral _ s.deposits _ _ rfl rfl (fun _ => rfl) (fun _ => rfl)
-    · exact neutral s.b s.deposits s.others _ rfl rfl (fun _ => rfl) (fun _ => rfl)
-  | invalid => exact neutral s.b s.deposits s.others _ rfl rfl (fun _ => rfl) (fun _ => rfl)
+    · exact neutral _ s.deposits _ _ (fun _ _ => rfl) (fun _ _ => rfl)
+    · exact neutral s.b s.deposits s.others _ (fun _ _ => rfl) (fun _ _ => rfl)
+  | invalid => exact neutral s.b s.deposits s.others _ (fun _ _ => rfl) (fun _ _ => rfl)
 
 theorem foldl_inv {cfg : Cfg} (P : State → Prop) (hstep : ∀ s op, P s → P (stepS cfg s op))
     (ops : List Op) : ∀ s, P s → P (ops.foldl (stepS cfg) s) := by
@@ -1018,7 +1048,7 @@ theorem fuel_succ (cl : Caller) : fuel cl = (2 * cl.maxA + 3) + 1 := by simp [fu
 /-- the first poll of a request calls the inner service in that very step -/
 theorem poll_fresh_calls {cfg : Cfg} {s : State} {c : Nat} {cl : Caller} (ds : List Nat)
     (hl : lookup s.callers c = some cl) (hp : cl.phase = .fresh) :
-    ∃ rest, (pollS cfg s c ds).log = s.log ++ Ev.innerCall c s.serial :: rest := by
+    ∃ rest, (pollS cfg s c ds).log = s.log ++ (s.now, REv.innerCall c s.serial) :: rest := by
   simp only [pollS, hl, fuel_succ]
   unfold loopC
   simp only [tickC, hp]
@@ -1029,7 +1059,7 @@ answers the readiness poll with "ready" -/
 theorem poll_sleeping_calls {cfg : Cfg} {s : State} {c u : Nat} {cl : Caller} (ds : List Nat)
     (hl : lookup s.callers c = some cl) (hp : cl.phase = .sleeping u) (hu : u ≤ s.now)
     (hrec : recovered cfg cl.atts s.now = true) (hr : (readyOf s.rdy).1 = true) :
-    ∃ rest, (pollS cfg s c ds).log = s.log ++ Ev.innerCall c s.serial :: rest := by
+    ∃ rest, (pollS cfg s c ds).log = s.log ++ (s.now, REv.innerCall c s.serial) :: rest := by
   simp only [pollS, hl, fuel_succ]
   unfold loopC
   simp only [tickC, hp, hu, hrec, and_self, if_true, retryCall, hr]
@@ -1039,7 +1069,7 @@ theorem poll_sleeping_calls {cfg : Cfg} {s : State} {c u : Nat} {cl : Caller} (d
 theorem poll_sleeping_unready {cfg : Cfg} {s : State} {c u : Nat} {cl : Caller} (ds : List Nat)
     (hl : lookup s.callers c = some cl) (hp : cl.phase = .sleeping u) (hu : u ≤ s.now)
     (hrec : recovered cfg cl.atts s.now = true) (hr : (readyOf s.rdy).1 = false) :
-    (pollS cfg s c ds).log = s.log ++ [Ev.result c readyErr] ∧ (pollS cfg s c ds).b = s.b ∧
+    (pollS cfg s c ds).log = s.log ++ [(s.now, REv.result c readyErr)] ∧ (pollS cfg s c ds).b = s.b ∧
     (pollS cfg s c ds).serial = s.serial := by
   simp only [pollS, hl, fuel_succ]
   unfold loopC
@@ -1070,7 +1100,7 @@ theorem poll_done_inert {cfg : Cfg} {s : State} {c : Nat} {cl : Caller} (ds : Li
   rcases hp with hp | hp <;> simp [tickC, hp]
 
 theorem observe_evs (cfg : Cfg) (now serial : Nat) (b : BState) (c : Nat) (cl : Caller) (k : Nat) (o : Out) :
-    ∃ rest, (observe cfg now serial b c cl k o).evs = Ev.innerDone c k o :: rest := by
+    ∃ rest, (observe cfg now serial b c cl k o).evs = (now, REv.innerDone c k o) :: rest := by
   simp only [observe]
   split <;> exact ⟨_, rfl⟩
 
@@ -1078,7 +1108,7 @@ theorem observe_evs (cfg : Cfg) (now serial : Nat) (b : BState) (c : Nat) (cl : 
 theorem poll_calling_observes {cfg : Cfg} {s : State} {c k due : Nat} {o : Out} {cl : Caller} (ds : List Nat)
     (hl : lookup s.callers c = some cl) (hp : cl.phase = .calling k due o) (hd : due ≤ s.now)
     (hn : o ≠ .never) :
-    ∃ rest, (pollS cfg s c ds).log = s.log ++ Ev.innerDone c k o :: rest := by
+    ∃ rest, (pollS cfg s c ds).log = s.log ++ (s.now, REv.innerDone c k o) :: rest := by
   have ht : tickC cfg s.now s.serial s.b c { cl with choices := ds, rdy := s.rdy }
       = some (observe cfg s.now s.serial s.b c { cl with choices := ds, rdy := s.rdy } k o) := by
     have : due ≤ s.now ∧ o ≠ .never := ⟨hd, hn⟩
